@@ -223,17 +223,31 @@ def write_channel(spec):
             else:
                 arr = t.astype(spec["dtype"])
             w.rf_write(arr, off - first)
-        w.close()
-        if spec.get("leftover"):
+        before = set(glob.glob(os.path.join(chdir, "*", "rf@*.h5")))
+        if spec.get("leftover") and di == len(spec["dirs"]) - 1:
             # what a recorder killed between closing a file and renaming it leaves behind: a complete HDF5 file
-            # under a tmp. name, one file period after (and one before) everything recorded.  Readers ignore it
-            fl = sorted(glob.glob(os.path.join(chdir, "*", "rf@*.h5")))
-            if fl:
-                for src_f, dms in ((fl[-1], spec["fc"]), (fl[0], -spec["fc"])):
-                    m = re.match(r"rf@(\d+)\.(\d+)\.h5$", os.path.basename(src_f))
-                    ms = int(m.group(1)) * 1000 + int(m.group(2)) + dms
-                    if ms >= 0:
-                        shutil.copyfile(src_f, os.path.join(os.path.dirname(src_f), "tmp.rf@%d.%03d.h5" % (ms // 1000, ms % 1000)))
+            # under a tmp. name after everything recorded.  It is produced by the writer itself (one more write
+            # into a later file period, closed, then renamed back to its tmp. name); readers ignore it
+            off, ln = segs[-1]
+            per_file = -(-spec["n"] * spec["fc"] // (1000 * spec["d"]))
+            cnt = 3 * spec["nsub"]
+            t = np.arange(tag, tag + cnt).reshape(3, spec["nsub"])
+            if spec["cplx"]:
+                if spec["dtype"][0] == "f":
+                    arr = (t + 1j * (-t)).astype("c8" if spec["dtype"] == "f4" else "c16")
+                else:
+                    arr = np.zeros(t.shape, dtype=[("r", spec["dtype"]), ("i", spec["dtype"])])
+                    arr["r"] = t
+                    arr["i"] = -t
+            else:
+                arr = t.astype(spec["dtype"])
+            try:
+                w.rf_write(arr, off + ln + 2 * per_file + 1 - first)
+            except Exception:  # noqa
+                pass
+        w.close()
+        for f in sorted(set(glob.glob(os.path.join(chdir, "*", "rf@*.h5"))) - before):
+            os.rename(f, os.path.join(os.path.dirname(f), "tmp." + os.path.basename(f)))
     return [tops[i] for i in spec["order"]]
 
 
@@ -269,6 +283,8 @@ def load_raw(tops):
         for p in paths:
             sub = calendar.timegm(time.strptime(os.path.basename(os.path.dirname(p)), "%Y-%m-%dT%H-%M-%S"))
             m = re.match(r"rf@(\d+)\.(\d+)\.h5$", os.path.basename(p))
+            if m is None:
+                continue            # (a listing that names something else is judged by the queries: bounds vs reads)
             ms = int(m.group(1)) * 1000 + int(m.group(2))
             with h5py.File(p, "r") as h:
                 idx = [[int(a), int(b)] for a, b in h["rf_data_index"][...]]
